@@ -253,6 +253,27 @@ def _discharge(ctx, f, c, ce, depth):
         sty, src = loop_source(f, L)
         if src is not None and any(y == ce or y == ece for y in walk(expand(f, src))):
             return independent(ctx, f, L, ce)
+    # 2d'. the same loop written as `value.try_for_each(|x| ..)` / `for_each`: the closure is the loop body
+    for c2 in f.calls(lambda r: r['gpath'] and re.search(r'Iterator::(try_for_each|for_each)$', r['gpath'])):
+        te = f.expr_of_call(c2['term'])
+        if len(te[2]) == 2 and any(y == ce or y == ece for y in walk(expand(f, te[2][0]))) and strip(te[2][1])[0] == 'closure' and strip(te[2][1])[1] in P.fns:
+            g = P.fns[strip(te[2][1])[1]]
+            bad = []
+            for x in [g.id] + list(P.closure_of_calls(g.id, kinds=('call', 'closure', 'fnref'))):
+                if x not in P.fns:
+                    continue
+                for c3 in P.fns[x].calls():
+                    full = (c3['callee'] or {}).get('rfull') or ''
+                    if re.search(r'TypeRegistry::(add|get_mut)$', c3['path'] or '') or re.match(r'^std::collections::Hash(Map|Set)::<.*>::(insert|remove|clear|retain|entry|extend)$', full) and 'ItemPath' in full:
+                        bad.append('%s calls %s' % (short(x), short(c3['path'])))
+            for c3 in g.calls(lambda r: r['path'] and re.search(r'Vec::<T, A>::(push|extend\w*|insert)|String::push\w*|fmt::Write::write_\w+', r['path'])):
+                if any(isinstance(y, tuple) and y and y[0] == 'upvar' for y in walk(g.expr_of_operand(c3['term']['args'][0]))):
+                    bad.append('appends to a captured sequence at %s' % loc(c3['span']))
+            names = sorted({short(c3['path']) for c3 in g.calls(lambda r: r['path'] in P.fns)})
+            if not names:
+                return False, 'closure over hash order with no recognisable per-element callee'
+            return not bad, 'INDEPENDENT: each call of the closure only calls %s with the element and captured loop-invariant state; the callees never modify a registry%s' % (
+                names, (' — BUT ' + ' | '.join(bad[:3])) if bad else '')
     # 2e. NOT-ITERATED-FURTHER
     return False, 'hash iteration order reaches a use that is neither sorted, nor error text, nor an order-independent loop'
 
